@@ -1,1 +1,265 @@
 // Kani harnesses compiled inside rs-matter/src/dm/clusters/icd_mgmt.rs (module `verif_kani`).
+
+mod c12 {
+    use super::*;
+
+    use crate::persist::ICD_CHECK_IN_COUNTER_KEY;
+
+    /// ASSUMED CONTRACT OF THE KEY-VALUE STORE: `store` returns `Ok` and the durable value of
+    /// the key is `data` from then on, or returns `Err` and the durable value is unchanged.
+    struct RecKv {
+        fail: bool,
+        present: bool,
+        durable: [u8; 8],
+        durable_len: usize,
+        stores: usize,
+        last_key: u16,
+    }
+
+    impl KvBlobStore for RecKv {
+        fn load<'a>(&mut self, key: u16, buf: &'a mut [u8]) -> Result<Option<&'a [u8]>, Error> {
+            self.last_key = key;
+            if self.fail {
+                return Err(ErrorCode::StdIoError.into());
+            }
+            if !self.present {
+                return Ok(None);
+            }
+            let n = self.durable_len;
+            buf[..n].copy_from_slice(&self.durable[..n]);
+            Ok(Some(&buf[..n]))
+        }
+
+        fn store(&mut self, key: u16, data: &[u8], _buf: &mut [u8]) -> Result<(), Error> {
+            self.stores += 1;
+            self.last_key = key;
+            if self.fail {
+                return Err(ErrorCode::StdIoError.into());
+            }
+            let n = if data.len() < 8 { data.len() } else { 8 };
+            self.durable[..n].copy_from_slice(&data[..n]);
+            self.durable_len = data.len();
+            self.present = true;
+            Ok(())
+        }
+
+        fn remove(&mut self, _key: u16, _buf: &mut [u8]) -> Result<(), Error> {
+            unimplemented!()
+        }
+    }
+
+    fn kv_holding(d: u32, fail: bool) -> RecKv {
+        let b = d.to_le_bytes();
+        RecKv {
+            fail,
+            present: true,
+            durable: [b[0], b[1], b[2], b[3], 0, 0, 0, 0],
+            durable_len: 4,
+            stores: 0,
+            last_key: 0,
+        }
+    }
+
+    fn durable_u32(kv: &RecKv) -> Option<u32> {
+        if kv.present && kv.durable_len == 4 {
+            Some(u32::from_le_bytes([kv.durable[0], kv.durable[1], kv.durable[2], kv.durable[3]]))
+        } else {
+            None
+        }
+    }
+
+    fn covered(u: u32, d: u32, epoch: u32) -> bool {
+        d.wrapping_sub(u) < epoch
+    }
+
+    fn mode() -> IcdModeConfig {
+        IcdModeConfig {
+            idle_mode_duration_s: 60,
+            active_mode_duration_ms: 300,
+            active_mode_threshold_ms: 500,
+            user_active_mode_trigger_hint: 0,
+            user_active_mode_trigger_instruction: "",
+        }
+    }
+
+    /// An arbitrary counter satisfying its invariant (`1 <= boundary - value <= epoch`). Its
+    /// fields are private to `sc::checkin`, so it is reached through two straight-line calls
+    /// whose contracts are `c12_checkin_new` / `c12_checkin_advance_by`: every invariant state
+    /// `(v, v + dist, epoch)` is `new(v - k, epoch)` jumped by `k = epoch - dist < epoch`.
+    fn any_counter() -> (CheckInCounter, u32) {
+        let epoch: u32 = kani::any();
+        let start: u32 = kani::any();
+        let k: u32 = kani::any();
+        kani::assume(epoch >= 1 && k < epoch);
+        let mut c = CheckInCounter::new(start, epoch);
+        let moved = c.advance_by(k);
+        kani::assume(moved.is_none());
+        (c, epoch)
+    }
+
+    fn boundary(icd: &Icd) -> u32 {
+        icd.state.lock(|s| s.borrow().counter.persist_value())
+    }
+
+    /// `advance_counter` with a working store, from any state whose boundary is the durable one:
+    /// the value just used was covered; afterwards boundary == durable again and the next value
+    /// is covered; the store is written exactly when the counter reached the boundary, under
+    /// the right key, before the call returns.
+    // TIER: quick
+    // KIND: complete
+    #[kani::proof]
+    fn c12_icd_advance_counter() {
+        let (c, epoch) = any_counter();
+        let icd = Icd::new(c, mode());
+        let d0 = boundary(&icd);
+        let mut kv = kv_holding(d0, false);
+        let mut buf = [0u8; 16];
+
+        let used = icd.next_counter();
+        kani::assert(covered(used, d0, epoch), "C12.icd.used_value_covered_by_durable_boundary");
+
+        let r = icd.advance_counter(&mut kv, &mut buf);
+
+        kani::assert(r.is_ok(), "C12.icd.advance_ok_when_store_works");
+        kani::assert(kv.stores == if used == d0 { 1 } else { 0 }, "C12.icd.store_iff_counter_reached_boundary");
+        kani::assert(kv.stores == 0 || kv.last_key == ICD_CHECK_IN_COUNTER_KEY, "C12.icd.store_key");
+        kani::assert(durable_u32(&kv) == Some(boundary(&icd)), "C12.icd.boundary_equals_durable_after_ok");
+        kani::assert(icd.next_counter() == used.wrapping_add(1), "C12.icd.values_strictly_increasing");
+        kani::assert(covered(icd.next_counter(), durable_u32(&kv).unwrap(), epoch), "C12.icd.next_value_covered_by_durable_boundary");
+        kani::assert(kv.stores == 0 || boundary(&icd) == d0.wrapping_add(epoch), "C12.icd.new_boundary_one_epoch_ahead");
+
+        kani::cover!(kv.stores == 1, "boundary reached, stored");
+        kani::cover!(kv.stores == 0, "still covered");
+        kani::cover!(used == u32::MAX, "value at the top of the range");
+        kani::cover!(kv.stores == 1 && boundary(&icd) < d0, "boundary wraps");
+    }
+
+    /// Candidate D9: `advance_counter` when the store FAILS. Contract: `Err` leaves the
+    /// in-memory boundary equal to the durable one (so that a later call demands the store
+    /// again and no value beyond the durable boundary is ever used).
+    // TIER: quick
+    // KIND: complete
+    #[kani::proof]
+    fn c12_d9_icd_advance_counter_store_failure() {
+        let (c, epoch) = any_counter();
+        let icd = Icd::new(c, mode());
+        let d0 = boundary(&icd);
+        let mut kv = kv_holding(d0, true);
+        let mut buf = [0u8; 16];
+
+        let used = icd.next_counter();
+        let r = icd.advance_counter(&mut kv, &mut buf);
+
+        kani::cover!(r.is_err(), "store was due and failed");
+        kani::cover!(r.is_ok(), "no store due");
+        kani::assert(r.is_err() == (used == d0), "C12.d9.icd.err_iff_store_was_due");
+        kani::assert(durable_u32(&kv) == Some(d0), "C12.d9.icd.failed_store_keeps_durable");
+        kani::assert(!r.is_err() || boundary(&icd) == d0, "C12.d9.icd.err_leaves_boundary_equal_durable");
+        kani::assert(
+            !r.is_err() || covered(icd.next_counter(), d0, epoch),
+            "C12.d9.icd.after_err_next_value_still_covered_by_durable"
+        );
+    }
+
+    /// Consequence of D9 over two steps: after a failed boundary store, the following
+    /// `advance_counter` calls succeed without writing anything, and hand out a value the
+    /// durable boundary does not cover (a restart would use it again).
+    // TIER: quick
+    // KIND: complete
+    #[kani::proof]
+    fn c12_d9_icd_value_used_beyond_durable_after_failed_store() {
+        let (c, epoch) = any_counter();
+        kani::assume(epoch >= 2);
+        let icd = Icd::new(c, mode());
+        let d0 = boundary(&icd);
+        let mut buf = [0u8; 16];
+        kani::assume(icd.next_counter() == d0);
+
+        let mut failing = kv_holding(d0, true);
+        let r1 = icd.advance_counter(&mut failing, &mut buf);
+        kani::assert(r1.is_err(), "C12.d9.icd.first_call_reports_the_failure");
+
+        // the store works again, the application carries on with the next check-in
+        let mut kv = kv_holding(d0, false);
+        let used = icd.next_counter();
+        let r2 = icd.advance_counter(&mut kv, &mut buf);
+        kani::assert(r2.is_ok(), "C12.d9.icd.second_call_ok");
+        kani::assert(kv.stores == 0, "C12.d9.icd.second_call_writes_nothing");
+        kani::cover!(r1.is_err() && r2.is_ok(), "failure then success");
+        kani::assert(
+            covered(used, durable_u32(&kv).unwrap(), epoch),
+            "C12.d9.icd.value_used_after_failed_store_is_covered_by_durable"
+        );
+    }
+
+    /// `persist_counter` stores exactly `persist_value()` under the key; on `Err` nothing changed.
+    // TIER: quick
+    // KIND: complete
+    #[kani::proof]
+    fn c12_icd_persist_counter() {
+        let (c, _epoch) = any_counter();
+        let icd = Icd::new(c, mode());
+        let b0 = boundary(&icd);
+        let old: u32 = kani::any();
+        let mut kv = kv_holding(old, kani::any());
+        let mut buf = [0u8; 16];
+        let next0 = icd.next_counter();
+
+        let r = icd.persist_counter(&mut kv, &mut buf);
+
+        kani::assert(r.is_ok() == !kv.fail, "C12.icd.persist_result_is_store_result");
+        kani::assert(kv.stores == 1 && kv.last_key == ICD_CHECK_IN_COUNTER_KEY, "C12.icd.persist_one_store_right_key");
+        kani::assert(durable_u32(&kv) == Some(if r.is_ok() { b0 } else { old }), "C12.icd.persist_durable_is_boundary_or_unchanged");
+        kani::assert(boundary(&icd) == b0 && icd.next_counter() == next0, "C12.icd.persist_keeps_counter");
+        kani::cover!(r.is_ok(), "stored");
+        kani::cover!(r.is_err(), "store failure");
+    }
+
+    /// `load_counter`: a stored 4-byte value `d` restarts the counter at `d` (first value
+    /// `d + 1`, past everything `d` covered) with the boundary to store `d + epoch`; an absent
+    /// key keeps the counter; a malformed blob or a failing load is `Err` and keeps it.
+    /// NOTE the boundary returned by the restart is NOT stored by `load_counter`: until the
+    /// application calls `persist_counter`, boundary != durable (documented caller duty,
+    /// `CheckInCounter::new`).
+    // TIER: quick
+    // KIND: complete
+    #[kani::proof]
+    fn c12_icd_load_counter() {
+        let (c, _e0) = any_counter();
+        let icd = Icd::new(c, mode());
+        let b0 = boundary(&icd);
+        let next0 = icd.next_counter();
+
+        let d: u32 = kani::any();
+        let epoch: u32 = kani::any();
+        kani::assume(epoch != 0);
+        let mut kv = kv_holding(d, kani::any());
+        kv.present = kani::any();
+        kv.durable_len = kani::any();
+        kani::assume(kv.durable_len <= 8);
+        let mut buf = [0u8; 16];
+
+        let r = icd.load_counter(&mut kv, epoch, &mut buf);
+
+        let wellformed = kv.present && kv.durable_len == 4;
+        if kv.fail || (kv.present && !wellformed) {
+            kani::assert(r.is_err(), "C12.icd.load_err_on_failure_or_malformed");
+            kani::assert(boundary(&icd) == b0 && icd.next_counter() == next0, "C12.icd.load_err_keeps_counter");
+        } else if !kv.present {
+            kani::assert(r.is_ok(), "C12.icd.load_absent_ok");
+            kani::assert(boundary(&icd) == b0 && icd.next_counter() == next0, "C12.icd.load_absent_keeps_counter");
+        } else {
+            kani::assert(r.is_ok(), "C12.icd.load_ok");
+            kani::assert(icd.next_counter() == d.wrapping_add(1), "C12.icd.load_restarts_past_stored_boundary");
+            kani::assert(boundary(&icd) == d.wrapping_add(epoch), "C12.icd.load_boundary_one_epoch_ahead");
+            kani::assert(!covered(icd.next_counter(), d, epoch), "C12.icd.load_first_value_not_covered_by_old_boundary");
+        }
+        kani::assert(kv.stores == 0, "C12.icd.load_writes_nothing");
+        kani::assert(kv.last_key == ICD_CHECK_IN_COUNTER_KEY, "C12.icd.load_key");
+
+        kani::cover!(r.is_ok() && wellformed, "restart from a stored boundary");
+        kani::cover!(r.is_ok() && !kv.present, "first boot");
+        kani::cover!(r.is_err() && !kv.fail, "malformed blob");
+        kani::cover!(r.is_ok() && wellformed && d == u32::MAX, "stored boundary at the top of the range");
+    }
+}
